@@ -155,6 +155,8 @@ func Run(kind, repo, out string) error {
 		return genConsts(repo, out)
 	case "mintsites":
 		return genMintSites(repo, out)
+	case "auth":
+		return genAuth(repo, out)
 	}
 	return fmt.Errorf("unknown extractor %s", kind)
 }
